@@ -581,6 +581,21 @@ def check_C06(run: Run):
         elif accepted and dist > 6e-5: run.violation(f"accepted a replacement at operator distance {dist:.3g} ({c['label']})", c, fkey="C06-scalar-multiple" if c["label"].startswith("matrix times") else None)
         elif (not accepted) and on_qubits and dist < 1e-9: run.violation(f"rejected an exact replacement ({c['label']}, distance {dist:.3g}): {r['err']}", c)
         if not accepted and r["err"] != "ValueError": run.violation(f"rejection raised {r['err']} instead of ValueError ({c['label']})", c)
+    # --- the verdict on a proposal is a function of the proposal: asked first, asked again after exact and wrong neighbours
+    near = []
+    for d_ in (0.0, 1e-9, 3e-7, 2.6e-6, 1e-5, 8e-5, 1e-3):
+        near.append((W.w_stmt(_dg6.X(0)), [W.w_stmt(_dg6.Rx(0, _F6(math.pi - d_)))]))
+        near.append((W.w_stmt(_dg6.Rx(1, _F6(0.5))), [W.w_stmt(_dg6.H(1)), W.w_stmt(_dg6.Rz(1, _F6(0.5 + d_))), W.w_stmt(_dg6.H(1))]))
+        near.append((W.w_stmt(_dg6.CZ(0, 1)), [W.w_stmt(_dg6.CR(0, 1, _F6(math.pi - d_)))]))
+    order = list(range(len(near))); rng.shuffle(order)
+    first = {i: O.impl_check_stmts(*near[i])["err"] for i in order}
+    for i in sorted(order): O.impl_check_stmts(*near[i])
+    second = {i: O.impl_check_stmts(*near[i])["err"] for i in reversed(order)}
+    run.count({"history-independence": len(near)}, tag="history")
+    for i in order:
+        if first[i] != second[i]:
+            run.violation(f"the verdict on one and the same proposal changed with what was checked before ({first[i] or 'accepted'} at first, {second[i] or 'accepted'} later)",
+                          {"g": near[i][0], "cand": near[i][1]}); break
     # --- replace(): only the requested name is rewritten, spliced in place
     import opensquirrel.default_gates as dg
     for i in range(run.n(40, 600)):
